@@ -107,7 +107,8 @@ CLAIMED = {
    "order, o.f(args) becomes f(o, args) with the receiver first, parentheses disappear, every other node is copied with its "
    "positions and debug columns), writes nothing that existed before the call (frame obligation) and the structural fields of AST "
    "nodes are written only by constructors (scan); the parser turns every parenthesised expression into a Group node around exactly "
-   "the expression parsed inside (parseGroup), which is what keeps (o.f)(x) apart from the method-call sugar o.f(x). The semantic half (sugared and explicit notation evaluate alike) and idempotence: "
+   "the expression parsed inside (parseGroup), which is what keeps (o.f)(x) apart from the method-call sugar o.f(x), and every operator "
+   "application into a Unary / Binary / Tenary node carrying exactly the operator's name and its operands in source order (parselets). The semantic half (sugared and explicit notation evaluate alike) and idempotence: "
    "bounded stand-in. Known finding F20 is open.",
    TB + BS, TECHB),
  "C11": ("other",
@@ -142,7 +143,9 @@ CLAIMED = {
  "C16": ("other",
    "Deductive (all inputs): GetOrDefault returns the payload iff present else the default (closure GET_MAYBE and OP_GET_MAYBE in both "
    "loops), never nil; type equality implies equal kind (tyEq unfolding inside types.equals) so an optional is never equal to its "
-   "payload type. That no other built-in accepts an optional, and absence never reaches a run-time access: bounded stand-in.",
+   "payload type. That no other built-in accepts an optional, and absence never reaches a run-time access: bounded stand-in "
+   "(optional-misuse programs; host data with nil pointers / slices / maps incl. containers whose entries disagree on a nil-able "
+   "part, which conv must reject or convert to well-typed values).",
    TB + BS, TECHB),
  "C17": ("other",
    "Deductive (all type trees, unbounded): types.Equals/equals/equalsObj/equalsTuple/equalsFun return exactly tyEq (structural, object "
